@@ -152,6 +152,11 @@ pub fn source_constants() -> Vec<usize> {
     v
 }
 
+/// constants of the source that no payload size reaches (reported in the evidence notes)
+pub fn unreached(consts: &[usize]) -> Vec<usize> {
+    consts.iter().copied().filter(|c| *c > 16384).collect()
+}
+
 /// constants a payload of "several KiB" can reach
 pub fn pivots(consts: &[usize], thorough: bool) -> Vec<usize> {
     let mut p: Vec<usize> = consts.iter().copied().filter(|c| (48..=16384).contains(c)).collect();
@@ -179,9 +184,13 @@ pub fn size_ladder(consts: &[usize]) -> Vec<usize> {
 }
 
 /// every kind of invalidity the generator knows, by name; 0 = none (the big VALID follow-up must be sent and answered)
-pub const KINDS: [&str; 10] = ["valid", "call_id_65", "call_id_70", "call_id_300", "call_id_65_two_byte", "name_empty", "name_dot", "name_space", "name_non_ascii", "name_65"];
+/// (the last one makes the INITIAL request invalid: a malformed tool_choice object that itself carries the payload)
+pub const KINDS: [&str; 11] = ["valid", "call_id_65", "call_id_70", "call_id_300", "call_id_65_two_byte", "name_empty", "name_dot", "name_space", "name_non_ascii", "name_65", "tool_choice_malformed"];
 pub fn kind_is_name(kind: usize) -> bool {
-    kind >= 5
+    (5..=9).contains(&kind)
+}
+pub fn kind_is_tool_choice(kind: usize) -> bool {
+    KINDS[kind] == "tool_choice_malformed"
 }
 pub fn poison_call_id(kind: usize, base: &str) -> Option<String> {
     let pad = |n: usize, c: char| -> String { base.chars().chain(std::iter::repeat(c)).take(n).collect() };
@@ -241,7 +250,7 @@ pub fn plans(r: &mut Rng, consts: &[usize], thorough: bool) -> Vec<SizedPlan> {
                 if thorough {
                     for kind in 1..KINDS.len() {
                         out.push(mk(kind, true, pay.clone(), "align", r, &mut n));
-                        if !kind_is_name(kind) {
+                        if !kind_is_name(kind) && !kind_is_tool_choice(kind) {
                             out.push(mk(kind, false, pay.clone(), "align", r, &mut n));
                         }
                     }
